@@ -118,6 +118,7 @@ def normalizeIndexes (indexes : List Nat) : List Nat :=
 structure Tree (D : Type) where
   nodes : List D
   leaves : List D
+  deriving DecidableEq, Repr
 
 /-- hash adjacent pairs (`two_leaves` / `two_nodes`) -/
 def pairUp {D} (H : Hasher D) : List D → List D
